@@ -1071,9 +1071,10 @@ func (s *sharedEntryAttributes) ImportConfig(ctx context.Context, t importer.Imp
 			var exists bool
 			var actualEntry Entry = s
 			var keyChild Entry
-			for _, keySchema := range s.schema.GetContainer().GetKeys() {
-
-				keyElemName := keySchema.Name
+			// the key levels of the tree are in the alphabetical order of the key names
+			keyNames := s.GetSchemaKeys()
+			sort.Strings(keyNames)
+			for _, keyElemName := range keyNames {
 
 				keyTransf := t.GetElement(keyElemName)
 				if keyTransf == nil {
@@ -1450,8 +1451,14 @@ func (s *sharedEntryAttributes) getKeyName() (string, error) {
 	// only Contaieners have keys, so check for that
 	switch sch := ancestorWithSchema.GetSchema().GetSchema().(type) {
 	case *sdcpb.SchemaElem_Container:
-		// return the name of the levelUp-1 key
-		return sch.Container.GetKeys()[levelUp-1].Name, nil
+		// return the name of the levelUp-1 key, the key levels of the tree
+		// are in the alphabetical order of the key names
+		keys := make([]string, 0, len(sch.Container.GetKeys()))
+		for _, k := range sch.Container.GetKeys() {
+			keys = append(keys, k.Name)
+		}
+		sort.Strings(keys)
+		return keys[levelUp-1], nil
 	}
 
 	// we probably called the function on a LeafList or LeafEntry which is not a valid call to be made.
